@@ -68,9 +68,11 @@ impl<'a, P> State<'a, P> {
     {
         let registry = std::mem::take(&mut self.registry);
         let mut state = registry.into_child().into();
-        f(&mut state)?;
+        let result = f(&mut state);
+        // Split off the child and restore the own registry, regardless of whether `f` failed.
         let (registry, child) = StateRegistry::from(state).into_parent();
         self.registry = registry.unwrap();
+        result?;
         Ok(child.into())
     }
 
